@@ -6,7 +6,10 @@ import traceback
 LEVEL = 'exploration'
 RULE = ('sequences of 10-40 reservation requests (create / update / delete; ids tenant/alloc/cell over 2 cells and 1-3 '
         'partitions, some without a partition record; memory/disk spelled \\d+[KkMmGg], cpu \\d+%; traits from a small '
-        'set; names with capitals; partitions with 0-4 per-trait limits, redefined now and then - also below what is already '
+        'set, in half of the cases some of them named with punctuation (%, :, ., +, space, braces, non-ASCII) or 32 characters long '
+        '(common.json#/trait admits any string up to 32); names with capitals; some requests with "partition": null (admitted by the '
+        'schema; bound by: accepted => fits the partition the reservation is stored in afterwards, refused => input error and '
+        'directory unchanged); partitions with 0-4 per-trait limits, redefined now and then - also below what is already '
         'promised; updates with or without the optional traits field) issued to the '
         'real api.allocation.API().reservation with the real JSON-schema validation, over the real admin objects '
         '(CellAllocation / Partition to_entry/from_entry, _diff_entries) on an in-memory directory. Oracle per request: an '
@@ -20,9 +23,13 @@ ASSUMPTIONS = ['in-memory LDAP directory under the real treadmill.admin._ldap.Ad
                'context.GLOBAL.admin._conn set to a real AdminLdapBackend on that directory',
                'schema-invalid requests are outside the domain (a jsonschema ValidationError counts as an input error)']
 BUDGET = {'quick': (150, 30.0), 'thorough': (4000, 240.0)}
-REQUIRED_REACH = {'*': ['accepted', 'rejected_capacity', 'decisions_with_shared_limited_trait', 'updates_decided', 'rejected_trait_limit']}
+REQUIRED_REACH = {'*': ['accepted', 'rejected_capacity', 'decisions_with_shared_limited_trait', 'updates_decided', 'rejected_trait_limit',
+                        'rejected_trait_limit_of_trait_named_with_punctuation', 'null_partition_requests_answered',
+                        'null_partition_updates_of_reservation_outside_default']}
 
 TRAITS = ['ssd', 'gpu', 'big', 'x86']
+# a trait name is any string of up to 32 characters (common.json#/trait): names with punctuation, a 32-character name
+ODD_TRAITS = ['spot-50%', '100%', 'a%sb', '%d', 'gen.2', 'tier:1', 'x_y+z', 'rack 7', 'T' * 32, '{0}', 'né']
 MANY_TRAITS = TRAITS + ['t%02d' % i for i in range(14)]       # a partition may limit many traits (more than ten, more than sixteen)
 UNIT = {'K': 1024, 'M': 1024 ** 2, 'G': 1024 ** 3, 'T': 1024 ** 4}
 DECIMAL = {'K': 1000, 'M': 1000 ** 2, 'G': 1000 ** 3, 'T': 1000 ** 4}
@@ -92,6 +99,13 @@ def run(ctx):
         api = api_alloc.API().reservation
         directory = be._ldap_conn
         cells = ['c1', rng.choice(['c2', 'NY-Cell2', 'Z9'])]       # cell names may contain capitals
+        # the traits of this installation: plain names, or some of them with punctuation / of maximal length
+        tnames = list(TRAITS)
+        if rng.random() < 0.5:
+            for i, odd in zip(rng.sample(range(4), rng.randint(1, 3)), rng.sample(ODD_TRAITS, 3)):
+                tnames[i] = odd
+        odd_names = set(tnames) - set(TRAITS)
+        many_tnames = tnames + MANY_TRAITS[4:]
         parts = ['_default', 'p1', 'p2'][:rng.randint(1, 3)]
         pcap = {}
 
@@ -103,8 +117,8 @@ def run(ctx):
                        disk=rng.choice([1024, 4096, 16384]) * (k if roomy else 1))
             limits = []
             many = roomy and rng.random() < 0.2
-            for t in (rng.sample(MANY_TRAITS, rng.randint(11, 18)) if many else
-                      rng.sample(TRAITS, rng.choice([0, 1, 2, 3, 4] if roomy else [0, 0, 1, 2, 3]))):
+            for t in (rng.sample(many_tnames, rng.randint(11, 18)) if many else
+                      rng.sample(tnames, rng.choice([0, 1, 2, 3, 4] if roomy else [0, 0, 1, 2, 3]))):
                 limits.append(dict(trait=t, cpu='%d%%' % rng.choice([0, 100, 200, 500, 800]),
                                    memory=spell_capacity(rng, rng.choice([0, 512, 2048, 8192])),
                                    disk=spell_capacity(rng, rng.choice([0, 512, 2048, 8192]))))
@@ -175,48 +189,56 @@ def run(ctx):
                         disk=spell_bytes(rng, rng.choice([0, 128, 512, 1024, 2048, 4096]) * scale))
             if rng.random() < 0.75 or verb == 'update' and rng.random() < 0.8:
                 rsrc['partition'] = rng.choice(parts)
+            null_partition = False
+            if rng.random() < (0.12 if verb == 'update' else 0.04):
+                # the schema admits "partition": null (common.json#/partition is string | null)
+                rsrc['partition'] = None
+                null_partition = True
             if rng.random() < 0.7:
-                rsrc['traits'] = rng.sample(TRAITS, rng.choice([0, 1, 2, 2, 3, 4]))
+                rsrc['traits'] = rng.sample(tnames, rng.choice([0, 1, 2, 2, 3, 4]))
                 if rng.random() < 0.3:
                     rsrc['traits'] += rng.sample(MANY_TRAITS[4:], rng.randint(1, 3))
             if rng.random() < 0.3:
                 rsrc['rank'] = rng.randint(0, 100)
             # ---- independent decision
             partition = rsrc.get('partition')
-            if partition is None:
+            if partition is None and not null_partition:
                 partition = '_default' if verb == 'create' else None
+            req = dict(cpu=own_cpu(rsrc['cpu']), memory=own_bytes(rsrc['memory']), disk=own_bytes(rsrc['disk']))
+            # the traits the reservation carries once accepted: the request's, or - for an update that
+            # names none (absent, or an empty list, which the directory update does not clear) - the stored ones
+            carried = list(rsrc.get('traits') or [])
+            kept = ''
+            if verb == 'update' and not carried and mirror[key]['traits']:
+                carried = list(mirror[key]['traits'])
+                kept = ':update-keeps-stored-traits:%s' % ('empty-list' if 'traits' in rsrc else 'absent')
+
+            def decide(partition):
+                """Does the reservation, as it will be stored, fit `partition` of the cell next to the others there?"""
+                cap = pcap.get((cell, partition), dict(cpu=0, memory=0, disk=0, limits={}))
+                others = [m for k, m in mirror.items() if k != key and k[1] == cell and m['partition'] == partition]
+                shared, limiting = False, None
+                for dim in ('cpu', 'disk', 'memory'):
+                    if req[dim] > cap[dim] - sum(o[dim] for o in others):
+                        return 'reject', dim, shared, limiting
+                for t in carried:
+                    if t in cap['limits']:
+                        sh = [o for o in others if t in o['traits']]
+                        shared = shared or bool(sh)
+                        for dim in ('cpu', 'disk', 'memory'):
+                            if req[dim] > cap['limits'][t][dim] - sum(o[dim] for o in sh):
+                                why = '%s:trait' % dim
+                                if kept and t not in (rsrc.get('traits') or []):
+                                    why += kept
+                                return 'reject', why, shared, t
+                return 'accept', None, shared, limiting
+
             expect = None
             why = None
             shared = False
+            limiting = None
             if partition is not None:
-                cap = pcap.get((cell, partition), dict(cpu=0, memory=0, disk=0, limits={}))
-                req = dict(cpu=own_cpu(rsrc['cpu']), memory=own_bytes(rsrc['memory']), disk=own_bytes(rsrc['disk']))
-                others = [m for k, m in mirror.items() if k != key and k[1] == cell and m['partition'] == partition]
-                expect = 'accept'
-                for dim in ('cpu', 'disk', 'memory'):
-                    if req[dim] > cap[dim] - sum(o[dim] for o in others):
-                        expect, why = 'reject', dim
-                        break
-                # the traits the reservation carries once accepted: the request's, or - for an update that
-                # names none (absent, or an empty list, which the directory update does not clear) - the stored ones
-                carried = list(rsrc.get('traits') or [])
-                kept = ''
-                if verb == 'update' and not carried and mirror[key]['traits']:
-                    carried = list(mirror[key]['traits'])
-                    kept = ':update-keeps-stored-traits:%s' % ('empty-list' if 'traits' in rsrc else 'absent')
-                if expect == 'accept':
-                    for t in carried:
-                        if t in cap['limits']:
-                            sh = [o for o in others if t in o['traits']]
-                            shared = shared or bool(sh)
-                            for dim in ('cpu', 'disk', 'memory'):
-                                if req[dim] > cap['limits'][t][dim] - sum(o[dim] for o in sh):
-                                    expect, why = 'reject', '%s:trait' % dim
-                                    if kept and t not in (rsrc.get('traits') or []):
-                                        why += kept
-                                    break
-                        if expect == 'reject':
-                            break
+                expect, why, shared, limiting = decide(partition)
             before = copy.deepcopy(directory.store)
             outcome, err = 'accept', None
             try:
@@ -242,16 +264,39 @@ def run(ctx):
                 nontrivial = True
             if outcome == 'exception':
                 mech = 'exception:%s@%s' % (type(err).__name__, site)
-                if partition is None:
+                if null_partition:
+                    mech += ':null-partition'
+                elif partition is None:
                     mech += ':update-without-partition'
                 ctx.violation(mech, '%s %s %r raised %s: %s' % (verb, rid, rsrc, type(err).__name__, err), case=case)
                 break
             if outcome == 'schema':
-                if partition is None:
+                if partition is None and not null_partition:
                     ctx.count('schema_rejected_update_without_partition')
                     continue
                 ctx.violation('schema-rejected-valid-request', '%s %s %r: %s' % (verb, rid, rsrc, str(err)[:200]), case=case)
                 break
+            null_sfx = ''
+            if null_partition:
+                # what a null partition means is the product's business; the statement binds the outcome: a request that
+                # is accepted fits the partition the reservation is stored in afterwards (as the directory says), and a
+                # refusal is an input error that leaves the directory alone
+                ctx.count('null_partition_requests_answered')
+                if verb == 'update' and mirror[key]['partition'] != '_default':
+                    ctx.count('null_partition_updates_of_reservation_outside_default')
+                if outcome == 'reject':
+                    ctx.count('null_partition_requests_rejected')
+                    if directory.store != before:
+                        ctx.violation('store-changed-on-reject', '%s %s rejected but the directory changed' % (verb, rid), case=case)
+                        break
+                    continue
+                ctx.count('null_partition_requests_accepted')
+                partition = (api.get(rid) or {}).get('partition')
+                expect, why, shared, limiting = decide(partition)
+                null_sfx = ':request-with-null-partition'
+                case.update(expect=expect, why=why, stored_in_partition=partition, partition_record=pcap.get((cell, partition)),
+                            others=[dict(id='%s/%s' % k, **{x: m[x] for x in ('cpu', 'memory', 'disk', 'partition', 'traits')})
+                                    for k, m in mirror.items() if k != key and k[1] == cell and m['partition'] == partition])
             if expect is None:
                 # update without partition got through validation and the check: nothing to compare against
                 ctx.count('update_without_partition_answered')
@@ -262,8 +307,9 @@ def run(ctx):
                 continue
             if outcome == 'accept' and expect == 'reject':
                 ctx.violation('accepted-but-does-not-fit:%s' % why.split(':')[0] + (':trait-limit' if 'trait' in why else '') +
-                              (':' + ':'.join(why.split(':')[2:]) if why.count(':') > 1 else ''),
-                              '%s %s %r accepted although %s does not fit' % (verb, rid, rsrc, why), case=case)
+                              (':' + ':'.join(why.split(':')[2:]) if why.count(':') > 1 else '') + null_sfx,
+                              '%s %s %r accepted although %s does not fit%s' % (
+                                  verb, rid, rsrc, why, ' partition %r where it is stored now' % partition if null_sfx else ''), case=case)
                 break
             if outcome == 'reject' and expect == 'accept':
                 ctx.violation('rejected-but-fits' + (':shared-limited-trait' if shared else ''),
@@ -271,6 +317,8 @@ def run(ctx):
                 break
             if outcome == 'reject':
                 ctx.count('rejected_trait_limit' if 'trait' in why else 'rejected_capacity')
+                if limiting in odd_names:
+                    ctx.count('rejected_trait_limit_of_trait_named_with_punctuation')
                 if directory.store != before:
                     ctx.violation('store-changed-on-reject', '%s %s rejected but the directory changed' % (verb, rid), case=case)
                     break
